@@ -241,13 +241,18 @@ theorem C02_app_tags_source :
 
 /-- … and the numbers that travel as ENUMERATED values: the discriminants of `Scope` and `DerefAliases`
 (`scope as i64`, `opts.deref as i64`) and the operation number `fn modify` writes for each `Mod` variant, as they stand in
-the source today, are the model's `Scope.toInt`, `Deref.toInt` and `ModKind.toInt`. -/
+the source today, are the model's `Scope.toInt`, `Deref.toInt` and `ModKind.toInt` (by variant name: the order in which the
+variants or arms are written does not matter). -/
 theorem C02_enum_values_source :
-    Gen.enum_Scope = [("Base", Scope.base.toInt), ("OneLevel", Scope.oneLevel.toInt), ("Subtree", Scope.subtree.toInt)] ∧
-    Gen.enum_DerefAliases = [("Never", Deref.never.toInt), ("Searching", Deref.searching.toInt),
-      ("Finding", Deref.finding.toInt), ("Always", Deref.always.toInt)] ∧
-    Gen.modNums = [("Add", ModKind.add.toInt), ("Delete", ModKind.delete.toInt), ("Replace", ModKind.replace.toInt),
-      ("Increment", ModKind.increment.toInt)] := by decide
+    (Gen.enum_Scope.lookup "Base" = some Scope.base.toInt ∧ Gen.enum_Scope.lookup "OneLevel" = some Scope.oneLevel.toInt ∧
+      Gen.enum_Scope.lookup "Subtree" = some Scope.subtree.toInt ∧ Gen.enum_Scope.length = 3) ∧
+    (Gen.enum_DerefAliases.lookup "Never" = some Deref.never.toInt ∧
+      Gen.enum_DerefAliases.lookup "Searching" = some Deref.searching.toInt ∧
+      Gen.enum_DerefAliases.lookup "Finding" = some Deref.finding.toInt ∧
+      Gen.enum_DerefAliases.lookup "Always" = some Deref.always.toInt ∧ Gen.enum_DerefAliases.length = 4) ∧
+    (Gen.modNums.lookup "Add" = some ModKind.add.toInt ∧ Gen.modNums.lookup "Delete" = some ModKind.delete.toInt ∧
+      Gen.modNums.lookup "Replace" = some ModKind.replace.toInt ∧
+      Gen.modNums.lookup "Increment" = some ModKind.increment.toInt ∧ Gen.modNums.length = 4) := by decide
 
 example : rootForm (build (.delete [0x78])) = (1, 10, false) ∧ rootForm (build (.add [0x78] [])) = (1, 8, true) := by
   decide
